@@ -7,7 +7,7 @@
  "annotate": ["util/sock_util.c"],
  "defines": ["VERIF_HALLOC", "VERIF_STRMAX=120"],
  "models": ["models/libc_string.c"],
- "cbmc": ["--malloc-may-fail", "--malloc-fail-null"],
+ "cbmc": ["--malloc-may-fail", "--malloc-fail-null", "--memory-leak-check"],
  "native": true,
  "timeout": 300,
  "assumptions": ["name length <= SA_MAXNAME = 112 bytes (sizeof(struct sockaddr_un) = 110 is the largest address used); bounds the symbolic objects only (functions are loop-free)",
@@ -37,4 +37,11 @@ h_dup(void)
 	VCOVER(r != NULL && a_namelen == SA_MAXNAME && g == a_namelen - 1);
 	VCOVER(r != NULL && a_namelen == 0);
 	VCOVER(r == NULL);
+	/* C14: release everything the caller owns; cbmc's leak check then shows that nothing else stayed allocated */
+	if (r != NULL) {
+		free(r->name);
+		free(r);
+	}
+	free(a_name);
+	free(sa);
 }
